@@ -46,7 +46,8 @@ class Env:
             signer = GPGSigner(keyid=key.gpg_keyid, homedir=self.gpg.home)
             msg = md.signed.signable_bytes
             sig = md.create_signature(signer)
-            self.rows.append([sig.keyid, sig.signature, self._msg(msg)])
+            # an OpenPGP signature covers its hashed headers too: the model asks its oracle about signature:other_headers
+            self.rows.append([sig.keyid, sig.signature + ":" + sig.other_headers, self._msg(msg)])
             return sig
         msg = md.signed.signable_bytes if isinstance(md, Metablock) else md.pae()
         sig = md.create_signature(key.signer)
